@@ -166,16 +166,16 @@ class MergeConsecutiveOp(BaseOp):
 
         """
         remove_df = pd.DataFrame(remove_groups, columns=["remove"])
-        max_groups = max(remove_groups)
-        for index in range(max_groups):
-            df_group = df_new.loc[remove_df["remove"]
-                                  == index + 1, ["onset", "duration"]]
+        # The times may have been read as text (a column holding n/a); compute with numeric copies.
+        times = df_new[["onset", "duration"]].apply(pd.to_numeric, errors="coerce")
+        df_new["duration"] = df_new["duration"].astype(object)
+        # Group numbers are not contiguous: a lone occurrence of the code also uses up a number.
+        for group_number in sorted(set(remove_groups) - {0}):
+            df_group = times.loc[remove_df["remove"] == group_number, ["onset", "duration"]]
             max_group = df_group.sum(axis=1, skipna=True).max()
             anchor = df_group.index[0] - 1
-            max_anchor = df_new.loc[anchor, [
-                "onset", "duration"]].sum(skipna=True).max()
-            df_new.loc[anchor, "duration"] = max(
-                max_group, max_anchor) - df_new.loc[anchor, "onset"]
+            max_anchor = times.loc[anchor, ["onset", "duration"]].sum(skipna=True).max()
+            df_new.loc[anchor, "duration"] = max(max_group, max_anchor) - times.loc[anchor, "onset"]
 
     @staticmethod
     def validate_input_data(parameters):
